@@ -160,6 +160,12 @@ def run(ctx):
             m = [list(bits[i * n:(i + 1) * n]) for i in range(n)]
             do(ctx, 'z2inv_corr', ['np', m], nontrivial=('z', str(m)))
             do(ctx, 'z2inv_oracle', ['np', m])
+    # LARGE registers: byte, word and cache-line boundaries of every packed or vectorised representation (8, 9, 16, 17, 33, 64, 65 qubits); model correspondence only
+    for n in gen.BIG:
+        for be in (['np', 'torch'] if n <= 33 else ['np']):
+            a, b = gen.rmap(rng, ctx.model, n), gen.rmap(rng, ctx.model, n)
+            do(ctx, 'compose_corr', [be, a, b], nontrivial=('big', be, n))
+            do(ctx, 'inverse_corr', [be, a], nontrivial=('bigi', be, n))
     for _ in range(int(150 * B)):
         n = rng.randint(4, 9)
         m = [[rng.randint(0, 1) for _ in range(n)] for _ in range(n)]
